@@ -637,8 +637,10 @@ impl CodegenContext {
     fn emit_token(&mut self, token: &Token) -> CoreResult<()> {
         match token {
             Token::Align { value, .. } => {
+                // The value is evaluated also where no segment is active (yet), so that an unknown name in it is noticed
+                let align = self.evaluate_expression_as_i64(value, true)?;
                 if let Some(pc) = self.try_current_target_pc() {
-                    if let Some(align) = self.evaluate_expression_as_i64(value, true)? {
+                    if let Some(align) = align {
                         if !(1..=0x10000).contains(&align) {
                             return Err(Diagnostic::error()
                                 .with_message(format!(
